@@ -121,6 +121,14 @@ func (p *PortSet) ContainedIn(other *PortSet) bool {
 
 // Intersection: update current PortSet object as intersection with input PortSet object
 func (p *PortSet) Intersection(other *PortSet) {
+	// a named port stays in the intersection only if the other set holds it too: by its name, or with all port numbers
+	if !other.IsAll() {
+		for name := range p.NamedPorts {
+			if !other.NamedPorts[name] {
+				delete(p.NamedPorts, name)
+			}
+		}
+	}
 	p.Ports = p.Ports.Intersect(other.Ports)
 }
 
